@@ -11,6 +11,10 @@ PROP = dict(
         "pair is a StringCharTuple/BytesByteTuple only when the character/byte is in range, otherwise a generic tuple",
         "`where`/`=>` bodies outside the modelled first-order fragment (`<` or `+` on non-numbers, `.a` on a set) are not "
         "generated (the model has no prediction there)",
+        "a Relation is modelled by its names and its rows as tuples: the physical column order and the projector are "
+        "abstracted away; relations with a permuted physical column order are supplied by the generator (stratum permrel: "
+        "operands computed by natural joins of lossless projections, whose value - taken from the literal - relies on <&>, "
+        "property C04) and `let` in the branch stratum is plain sharing of an evaluated value",
         "the relation bucket key is modelled by the list of names (names containing ', ' are C10's KF-relation-bucket)",
     ],
     assumptions=[
@@ -32,12 +36,13 @@ PROP = dict(
                "value the evaluator yields a well-formed representation of exactly that value, under `Adm e` = the "
                "conjunction of the step hypotheses along the evaluation. The finite-set algebra of the specification is "
                "proved exact and canonical. Partial: each admissibility hypothesis excludes a known-finding class (two "
-               "values at one index, a byte array with a gap, a sugar tuple handed to Relation.With) and is refuted at full "
+               "values at one index, a byte array with a gap) and is refuted at full "
                "strength by a witness theorem; not proved: that the generator's specification-level class predicates imply "
                "`Adm` (`programs_full`, `powerSet_full` stay stated as propositions) and the error outcomes of `where`/`=>`. "
                "The model is tied to /repo by running both on generated programs of the set-algebra family (operator x "
                "representation x representation x relation of the operands; observables canon, count, three membership "
-               "probes) on every run.",
+               "probes; plus relations with permuted physical column order built by joins, and three values grown from one shared "
+               "intermediate value) on every run.",
     design_ref="DESIGN.md section 6, C01",
     watch=["rel.Intersect", "rel.Union", "rel.Difference", "rel.SymmetricDifference", "rel.PowerSet",
            "rel.SetBuilder.Add", "rel.SetBuilder.Finish", "rel.asString", "rel.asBytes", "rel.asArray", "rel.NewDict",
